@@ -459,6 +459,11 @@ def is_none(x):
     return x is None
 
 
+def val(x):
+    """The value inside an optional (after `is_none(x)` answered False); dual use."""
+    return x.val if isinstance(x, SOpt) else x
+
+
 def neg(a):
     if isinstance(a, SBool):
         return mk_bool(z3.Not(a.e))
@@ -563,3 +568,26 @@ def trunc_real(x):
         fl = z3.ToInt(x.e)
         return mk_int(z3.If(x.e >= 0, fl, -z3.ToInt(-x.e)))
     return int(x)
+
+
+def to_real(x):
+    """float(x) (dual use)."""
+    if isinstance(x, (SInt, SBool)):
+        return SReal(z3.ToReal(_z(x)))
+    if isinstance(x, SReal):
+        return x
+    return float(x)
+
+
+def iround(x):
+    """round(x) to an int, banker's rounding as CPython (dual use)."""
+    if isinstance(x, SReal):
+        fl = z3.ToInt(x.e)
+        frac = x.e - z3.ToReal(fl)
+        half = z3.RealVal("1/2")
+        return mk_int(z3.If(frac < half, fl, z3.If(frac > half, fl + 1, z3.If(fl % 2 == 0, fl, fl + 1))))
+    return round(x)
+
+
+def itrunc(x):
+    return trunc_real(x)
